@@ -6,6 +6,7 @@ TextIOWrapper(BufferedWriter(raw)) stack; only the raw "syscalls" are simulated.
 import io, os as _os, builtins, errno
 
 ROOT = '/simfs'
+TMPROOT = '/simfs-tmp'      # the system temporary directory: a different file system (rename across -> EXDEV)
 
 
 class SimCrash(BaseException):
@@ -24,7 +25,9 @@ class _File(object):
 class SimFS(object):
     def __init__(self):
         self.files = {}
-        self.dirs = set([ROOT])
+        self.dirs = set([ROOT, TMPROOT])
+        self.cwd = None          # virtual current directory: relative paths are resolved against it
+        self.tmp_counter = 0
         self.clock = 0
         self.next_ino = 1
         self.log = []            # (kind, mutating)
@@ -49,6 +52,8 @@ class SimFS(object):
         f.clock = self.clock
         f.next_ino = self.next_ino
         f.pid = self.pid
+        f.cwd = self.cwd
+        f.tmp_counter = self.tmp_counter
         f.chunks = self.chunks
         f.bufsize = self.bufsize
         return f
@@ -175,6 +180,10 @@ class SimFS(object):
         return f
 
     def sys_rename(self, a, b):
+        if device_of(a) != device_of(b):
+            if self.step('rename', False):
+                raise SimCrash()
+            raise OSError(errno.EXDEV, 'Invalid cross-device link', a)
         if self.step('rename', True):
             raise SimCrash()
         f = self.files.get(a)
@@ -269,7 +278,11 @@ def is_virtual(path):
         p = _os.fspath(path)
     except TypeError:
         return False
-    return isinstance(p, str) and (p == ROOT or p.startswith(ROOT + '/'))
+    return isinstance(p, str) and (p == ROOT or p.startswith(ROOT + '/') or p == TMPROOT or p.startswith(TMPROOT + '/'))
+
+
+def device_of(path):
+    return 2 if (path == TMPROOT or path.startswith(TMPROOT + '/')) else 1
 
 
 class Seam(object):
@@ -278,7 +291,21 @@ class Seam(object):
     def __init__(self):
         self.fs = None
 
+    def resolve(self, path):
+        """relative paths live in the virtual current directory while a SimFS with one is active"""
+        fs = self.fs
+        if fs is None or fs.cwd is None:
+            return path
+        try:
+            p = _os.fspath(path)
+        except TypeError:
+            return path
+        if isinstance(p, str) and not p.startswith('/'):
+            return _os.path.normpath(_os.path.join(fs.cwd, p))
+        return path
+
     def open(self, path, mode='r', *args, **kw):
+        path = self.resolve(path)
         if self.fs is None or not is_virtual(path):
             return builtins.open(path, mode, *args, **kw)
         if 'b' in mode or '+' in mode or 'a' in mode:
@@ -314,6 +341,7 @@ class FakePath(object):
         return fs if (fs is not None and is_virtual(p)) else None
 
     def exists(self, p):
+        p = self._seam.resolve(p)
         fs = self._fs(p)
         if fs is None:
             return _os.path.exists(p)
@@ -322,7 +350,16 @@ class FakePath(object):
 
     lexists = exists
 
+    def abspath(self, p):
+        q = self._seam.resolve(p)
+        return _os.path.normpath(q) if is_virtual(q) else _os.path.abspath(p)
+
+    def realpath(self, p, **kw):
+        q = self._seam.resolve(p)
+        return _os.path.normpath(q) if is_virtual(q) else _os.path.realpath(p, **kw)
+
     def isfile(self, p):
+        p = self._seam.resolve(p)
         fs = self._fs(p)
         if fs is None:
             return _os.path.isfile(p)
@@ -330,6 +367,7 @@ class FakePath(object):
         return p in fs.files
 
     def isdir(self, p):
+        p = self._seam.resolve(p)
         fs = self._fs(p)
         if fs is None:
             return _os.path.isdir(p)
@@ -337,12 +375,14 @@ class FakePath(object):
         return p in fs.dirs
 
     def getsize(self, p):
+        p = self._seam.resolve(p)
         fs = self._fs(p)
         if fs is None:
             return _os.path.getsize(p)
         return fs.sys_stat(p).st_size
 
     def getmtime(self, p):
+        p = self._seam.resolve(p)
         fs = self._fs(p)
         if fs is None:
             return _os.path.getmtime(p)
@@ -358,6 +398,7 @@ class FakeOS(object):
         return getattr(_os, name)
 
     def stat(self, p, *a, **kw):
+        p = self._seam.resolve(p)
         fs = self._seam.fs
         if fs is not None and is_virtual(p):
             return fs.sys_stat(p)
@@ -366,6 +407,7 @@ class FakeOS(object):
     lstat = stat
 
     def utime(self, p, *a, **kw):
+        p = self._seam.resolve(p)
         fs = self._seam.fs
         if fs is not None and is_virtual(p):
             return fs.sys_utime(p)
@@ -383,6 +425,7 @@ class FakeOS(object):
 
     # os.open / os.fdopen / os.close / os.write on virtual paths
     def open(self, path, flags, mode=0o777, *a, **kw):
+        path = self._seam.resolve(path)
         fs = self._seam.fs
         if fs is not None and is_virtual(path):
             f = fs.sys_open_fd(path, flags, mode)
@@ -422,6 +465,7 @@ class FakeOS(object):
             raise SimCrash()
 
     def listdir(self, d='.'):
+        d = self._seam.resolve(d)
         fs = self._seam.fs
         if fs is not None and is_virtual(d):
             fs.step('listdir', False)
@@ -433,11 +477,16 @@ class FakeOS(object):
             return sorted(names)
         return _os.listdir(d)
 
+    def getcwd(self):
+        fs = self._seam.fs
+        return fs.cwd if (fs is not None and fs.cwd is not None) else _os.getcwd()
+
     def getpid(self):
         fs = self._seam.fs
         return fs.pid if fs is not None else _os.getpid()
 
     def rename(self, a, b):
+        a, b = self._seam.resolve(a), self._seam.resolve(b)
         fs = self._seam.fs
         if fs is not None and (is_virtual(a) or is_virtual(b)):
             return fs.sys_rename(a, b)
@@ -446,6 +495,7 @@ class FakeOS(object):
     replace = rename
 
     def unlink(self, a):
+        a = self._seam.resolve(a)
         fs = self._seam.fs
         if fs is not None and is_virtual(a):
             return fs.sys_unlink(a)
@@ -454,6 +504,7 @@ class FakeOS(object):
     remove = unlink
 
     def makedirs(self, d, *args, **kw):
+        d = self._seam.resolve(d)
         fs = self._seam.fs
         if fs is not None and is_virtual(d):
             if kw.get('exist_ok') and d in fs.dirs:
@@ -465,9 +516,88 @@ class FakeOS(object):
         return self.makedirs(d)
 
 
+class _NamedTemp(object):
+    def __init__(self, f, name, fakeos, delete):
+        self._f, self.name, self._os, self._delete = f, name, fakeos, delete
+
+    def __getattr__(self, n):
+        return getattr(self._f, n)
+
+    def __enter__(self):
+        return self
+
+    def __exit__(self, *a):
+        self.close()
+
+    def close(self):
+        self._f.close()
+        if self._delete:
+            try:
+                self._os.unlink(self.name)
+            except OSError:
+                pass
+
+
+class FakeTempfile(object):
+    """`tempfile` for code under test that has been changed to use it: the system temporary directory
+    is TMPROOT, a different file system than ROOT; names are deterministic"""
+
+    def __init__(self, seam, fakeos):
+        self._seam, self._os = seam, fakeos
+
+    def __getattr__(self, name):
+        import tempfile
+        return getattr(tempfile, name)
+
+    def gettempdir(self):
+        import tempfile
+        return TMPROOT if self._seam.fs is not None else tempfile.gettempdir()
+
+    def _dir(self, dir):
+        if dir is None:
+            return TMPROOT
+        d = self._seam.resolve(dir if dir != '' else '.')
+        return d
+
+    def mkstemp(self, suffix=None, prefix=None, dir=None, text=False):
+        import tempfile
+        fs = self._seam.fs
+        d = self._dir(dir) if fs is not None else dir
+        if fs is None or not is_virtual(d):
+            return tempfile.mkstemp(suffix, prefix, dir, text)
+        fs.tmp_counter += 1
+        path = _os.path.join(d, '%s%s%04d%s' % (prefix if prefix is not None else 'tmp', 'v', fs.tmp_counter, suffix or ''))
+        fd = self._os.open(path, _os.O_RDWR | _os.O_CREAT | _os.O_EXCL, 0o600)
+        return fd, path
+
+    def mkdtemp(self, suffix=None, prefix=None, dir=None):
+        import tempfile
+        fs = self._seam.fs
+        d = self._dir(dir) if fs is not None else dir
+        if fs is None or not is_virtual(d):
+            return tempfile.mkdtemp(suffix, prefix, dir)
+        fs.tmp_counter += 1
+        path = _os.path.join(d, '%s%s%04d%s' % (prefix if prefix is not None else 'tmp', 'v', fs.tmp_counter, suffix or ''))
+        fs.sys_makedirs(path)
+        return path
+
+    def NamedTemporaryFile(self, mode='w+b', buffering=-1, encoding=None, newline=None, suffix=None, prefix=None,
+                           dir=None, delete=True, **kw):
+        import tempfile
+        fs = self._seam.fs
+        d = self._dir(dir) if fs is not None else dir
+        if fs is None or not is_virtual(d):
+            return tempfile.NamedTemporaryFile(mode, buffering, encoding, newline, suffix, prefix, dir, delete, **kw)
+        fd, path = self.mkstemp(suffix, prefix, dir)
+        return _NamedTemp(self._os.fdopen(fd, mode.replace('+', '')), path, self._os, delete)
+
+
 def install(recompiler_module):
-    """returns the Seam; recompiler's `open` and `os` now go through it"""
+    """returns the Seam; recompiler's `open` and `os` (and `tempfile`, should the code under test have
+    started to use it) now go through it"""
     seam = Seam()
     recompiler_module.open = seam.open
     recompiler_module.os = FakeOS(seam)
+    if hasattr(recompiler_module, 'tempfile'):
+        recompiler_module.tempfile = FakeTempfile(seam, recompiler_module.os)
     return seam
